@@ -516,8 +516,6 @@ def inline_helper(src: str, target: Item, helper: Item):
     if re.search(r'\breturn\b', hb):
         raise ScanError('helper %s can leave early (return): not inlinable' % helper.name)
     try_mode = '?' in hb
-    if re.search(r'\b%s\s*\(' % re.escape(helper.name), hb):
-        raise ScanError('helper %s is recursive' % helper.name)
     header = src[helper.start:helper.header_end]
     hm = m[helper.start:helper.header_end]
 
@@ -577,6 +575,12 @@ def inline_helper(src: str, target: Item, helper: Item):
         if not mm:
             raise ScanError('helper %s: parameter %r is not `name: Type`' % (helper.name, prm))
         binds.append((mm.group(1) or '', mm.group(2), mm.group(3).strip()))
+    # recursion: a call of the helper itself, i.e. with the receiver form of its own kind (`x.name(..)` on another value is a
+    # different function that merely shares the name)
+    for mt in re.finditer(r'(?<![\w.])((?:self\s*\.\s*)|(?:(?:Self|\w+)\s*::\s*))?%s\s*\(' % re.escape(helper.name), hb):
+        recv = (mt.group(1) or '').replace(' ', '')
+        if has_self == recv.startswith('self.') or recv.startswith('Self::'):
+            raise ScanError('helper %s is recursive' % helper.name)
     body = src[helper.body[0]:helper.body[1]]
     lo, hi = target.body
     out = []
